@@ -64,10 +64,14 @@ impl BRemapper for Recorder {
 
 type Pairs = Vec<(MRef, MRef)>;
 
+// the message of the last Err the implementation returned (shown in replay texts only)
+thread_local! { static LAST_ERR: RefCell<String> = RefCell::new(String::new()); }
+fn last_err() -> String { LAST_ERR.with(|l| format!("Err ({})", l.borrow())) }
+
 /// Jar::get_specialized_methods: Ok(Some((b2s, s2b))) | Ok(None) for Err | Err(panic message)
 fn impl_spec(jar: &MemJar) -> Result<Option<(Pairs, Pairs)>, String> {
 	guarded(AssertUnwindSafe(|| {
-		let sm = match jar.get_specialized_methods() { Ok(sm) => sm, Err(_) => return None };
+		let sm = match jar.get_specialized_methods() { Ok(sm) => sm, Err(e) => { LAST_ERR.with(|l| *l.borrow_mut() = format!("{e:#}")); return None } };
 		let b2s: Pairs = sm.bridge_to_specialized.iter().map(|(b, s)| (of_ref(b), of_ref(s))).collect();
 		let rec = Recorder(RefCell::new(vec![]));
 		let _ = sm.clone().remap(&rec);
@@ -85,7 +89,7 @@ fn impl_add(jar: &MemJar, libs: &[MemJar], cal: &MMappings, maps: &MMappings, de
 	let Ok(maps_q) = to_quill::<2, (Intermediary, Named)>(maps) else { return Err("harness: mappings mirror not convertible".into()) };
 	let mut d = vec![];
 	let r = guarded(AssertUnwindSafe(|| {
-		specialized_methods::add_specialized_methods_to_mappings(jar, &cal_q, libs, &maps_q).ok().map(|m| from_quill(&m, &mut d))
+		specialized_methods::add_specialized_methods_to_mappings(jar, &cal_q, libs, &maps_q).map_err(|e| LAST_ERR.with(|l| *l.borrow_mut() = format!("{e:#}"))).ok().map(|m| from_quill(&m, &mut d))
 	}));
 	desync.extend(d);
 	r
@@ -190,7 +194,7 @@ fn do_spec(r: &mut Report, stream: &str, classes: &[AClass], jar: &MemJar, use_o
 		Err(p) => { r.violation(format!("get_specialized_methods panicked: {p}"), replay_text("get_specialized_methods panicked", classes, &[], None, p)); return; }
 		Ok(None) => {
 			r.count("spec:Err");
-			if use_oracle { r.violation("get_specialized_methods returned Err on a well-formed jar".into(), replay_text("get_specialized_methods returned Err on a well-formed jar", classes, &[], None, "Err")); }
+			if use_oracle { r.violation("get_specialized_methods returned Err on a well-formed jar".into(), replay_text("get_specialized_methods returned Err on a well-formed jar", classes, &[], None, &last_err())); }
 		}
 		Ok(Some((b2s, s2b))) => {
 			r.count(&format!("spec:pairs={}", b2s.len().min(4)));
@@ -241,7 +245,7 @@ fn do_add(r: &mut Report, stream: &str, g: &JarGen, jar: &MemJar, libs: &[MemJar
 	match &got {
 		None => {
 			r.count("add:Err");
-			if use_oracle { r.violation("add_specialized_methods_to_mappings returned Err on well-formed input".into(), replay_text("returned Err on well-formed input", &g.classes, &g.libs, Some((cal, maps)), "Err")); }
+			if use_oracle { r.violation("add_specialized_methods_to_mappings returned Err on well-formed input".into(), replay_text("returned Err on well-formed input", &g.classes, &g.libs, Some((cal, maps)), &last_err())); }
 		}
 		Some(m) => {
 			let changed = m != maps;
@@ -344,7 +348,7 @@ fn big_corpus(r: &mut Report, rng: &mut Rng, thorough: bool) {
 fn run(ctx: &Ctx) -> anyhow::Result<Report> {
 	let mut r = Report::new("C15", "C15.Run");
 	r.shard_size = 60;
-	r.rule = "jars are class files assembled in memory (own JVMS assembler, harness/src/bin/c15/asm.rs) from an abstract description: acyclic hierarchies over a pool of 10 in-jar and 6 external class names, per class a few patterns — flagged bridges, unflagged synthetics with generalised (Object / ancestor / external / equal) parameter and return types, and the near-misses not-synthetic, zero / two / repeated / array-class callees, arity mismatch, incompatible type, void-vs-value, private|static|final with and without the bridge flag, no Code, delegate in another class — plus the vendored javac-17 bridge classes of corpus/C15 (covariant returns, parameters erased to Object and to a bound, interface bridges, bridges through several levels, visibility bridges, lambdas/enum synthetics; abstract view from javap, confirmed by the independent parser) with /repo's fixtures, and every directory of the shared corpus /verif/corpus/classes as one jar (abstract view from the independent parser fbh::classfile::raw; quick tier: the 40 first directories, bridge classes first). Mapping sets: calamus (official->intermediary) and mappings (intermediary->named) naming each class / method involved with a per-case probability, delegate entries with javadoc and parameters, bridge keys named only in a super type, unrelated entries; extra streams: duplicate class / method keys, exchanged namespace order, wrong namespace names. Distinct = distinct (abstract jar, libraries, mapping sets); non-trivial = the documented rule yields at least one bridge pair (and, for the insertion, the mappings are not empty).".into();
+	r.rule = "jars are class files assembled in memory (own JVMS assembler, harness/src/bin/c15/asm.rs) from an abstract description: acyclic hierarchies over a pool of 10 in-jar and 6 external class names, per class a few patterns — flagged bridges, unflagged synthetics with generalised (Object / ancestor / external / equal) parameter and return types, and the near-misses not-synthetic, zero / two / repeated / array-class callees, arity mismatch, incompatible type, void-vs-value, private|static|final with and without the bridge flag, no Code, delegate in another class, a further bridge in a related class invoking the identical delegate reference, invokedynamic instructions beside / instead of the invoke, array element covariance as a candidate — ; a `dag` stream of multi-parent hierarchies inside the jar (2-3 super types per class in random order, redundant edges to an ancestor, no external super types) with unflagged synthetics whose parameter / return types are in-jar ancestors of the delegate's types (or, as near misses, non-ancestors); deterministic shapes (harness/src/bin/c15/det.rs): diamonds with every order of every parent list (shared ancestor first / middle / last; first parent as super class or interface) and the bound reached only through a later entry, at a parameter, second parameter, return type, both, unflagged and flagged, with the mapping sets of the seeded demonstration; two-level diamonds; towers of 3 / 6 / 9 diamonds (up to 2045 work-list steps); array candidates; 2-3 bridges in super class / subclass / unrelated class in several jar orders sharing one delegate reference; the bridge key named differently in two super types (both parent orders, depth-first through a super type's super class, differing intermediary names, no name at all, no row for the bridge's class) with hand-built mapping sets; bodies with invokedynamic — plus the vendored javac-17 bridge classes of corpus/C15 (covariant returns, parameters erased to Object and to a bound, interface bridges, bridges through several levels, visibility bridges, lambdas/enum synthetics; abstract view from javap, confirmed by the independent parser) with /repo's fixtures, and every directory of the shared corpus /verif/corpus/classes as one jar (abstract view from the independent parser fbh::classfile::raw; quick tier: the 40 first directories, bridge classes first). Mapping sets: calamus (official->intermediary) and mappings (intermediary->named) naming each class / method involved with a per-case probability, delegate entries with javadoc and parameters, bridge keys named only in a super type or under different names in every super type (own entry removed), unrelated entries; extra streams: duplicate class / method keys, exchanged namespace order, wrong namespace names. Distinct = distinct (abstract jar, libraries, mapping sets); non-trivial = the documented rule yields at least one bridge pair (and, for the insertion, the mappings are not empty).".into();
 	let mut rng = Rng::new(ctx.seed);
 
 	corpus(&mut r, &mut rng)?;
